@@ -6,7 +6,17 @@
 mod engine;
 mod props;
 
-use engine::Tier;
+use engine::{Tier, Violation};
+use serde_json::Value;
+
+type RunFn = fn(Tier) -> i32;
+type ReplayFn = fn(&Value) -> Vec<Violation>;
+
+const PROPS: &[(&str, RunFn, ReplayFn)] = &[
+    ("C12", props::c12::run, props::c12::replay),
+    ("C13", props::c13::run, props::c13::replay),
+    ("C20", props::c20::run, props::c20::replay),
+];
 
 fn main() {
     engine::install_panic_hook();
@@ -16,22 +26,19 @@ fn main() {
         std::process::exit(3);
     }
     let id = args[0].to_uppercase();
+    let Some((name, run, replay)) = PROPS.iter().find(|p| p.0 == id) else {
+        engine::machinery_error("unknown property")
+    };
     if args[1] == "--replay" {
-        let path = args.get(2).unwrap_or_else(|| engine::machinery_error("missing replay path"));
-        let f: &dyn Fn(&serde_json::Value) -> Vec<engine::Violation> = match id.as_str() {
-            "C13" => &props::c13::replay,
-            _ => engine::machinery_error("unknown property"),
-        };
-        std::process::exit(engine::replay_file(&id, path, f));
+        let path = args
+            .get(2)
+            .unwrap_or_else(|| engine::machinery_error("missing replay path"));
+        std::process::exit(engine::replay_file(name, path, replay));
     }
     let tier = match args[1].as_str() {
         "quick" => Tier::Quick,
         "thorough" => Tier::Thorough,
         _ => engine::machinery_error("tier must be quick or thorough"),
     };
-    let code = match id.as_str() {
-        "C13" => props::c13::run(tier),
-        _ => engine::machinery_error("unknown property"),
-    };
-    std::process::exit(code);
+    std::process::exit(run(tier));
 }
